@@ -3,4 +3,4 @@ CONSTANTS
   Vals = {1, 2, 3}
   KeyTypes = {"u8", "str"}
 INVARIANTS TypeOK Observed
-PROPERTIES Obs Order Report
+PROPERTIES Obs Order Report IterMut
